@@ -69,7 +69,7 @@ let () =
               let lim = { lim_loop = nat_of_int (int_of_string l); lim_rec = nat_of_int (int_of_string r); lim_stack = nat_of_int (int_of_string s) } in
               let f0 = { f_code = O; f_pc = O; f_loops = O; f_exit = (exit0 = "1"); f_fp = O; f_pol = Propagate } in
               let regs0 = (match p with c :: _ -> c.c_regs | [] -> O) in
-              let s0 = { st_frames = [f0]; st_host = nat_of_int (int_of_string host); st_stack = regs0; st_log = [] } in
+              let s0 = { st_frames = [f0]; st_host = nat_of_int (int_of_string host); st_stack = S (S regs0) (* Script::evaluate pushes this and the function slot, then the registers *); st_log = [] } in
               let o = run p lim (List.map nat_of_int (ints ',' choices)) s0 in
               let c, st = (match o with Running st -> "running", st | Done (c, st) -> comp_s c, st) in
               Printf.printf "%s %s %s\n" id c (String.concat " " (List.map ev_s st.st_log))
